@@ -43,12 +43,22 @@ def check(ctx, tier):
     tk.purity("C05.p", [ctx.func(q) for q in ['raggedarray.RaggedArray.sum', 'raggedarray.RaggedArray.prod', 'raggedarray.RaggedArray.mean', 'raggedarray.RaggedArray.all', 'raggedarray.RaggedArray.any', 'raggedarray.RaggedArray.max', 'raggedarray.RaggedArray.min', 'raggedarray.RaggedArray.argmax', 'raggedarray.RaggedArray.argmin', 'raggedarray.RaggedArray._reduce']], "the operation does not write into its operands' buffers", content_only=True)
     from .. import hazards as _hz, scopes as _sc
     _hz.generic(ctx, tk, "C05.z", _sc.scope(tk, "C05", depth=2))
+    _hz.h19_raw_identity_store(ctx, tk, "C05.z/H19", [ctx.func("raggedarray.RaggedArray._reduce")])
     return {}
 
 
-def _is_identity(t):
+def _is_identity(t, depth=0):
+    """ufunc.identity, possibly converted to an array / a dtype: np.array(identity).astype(d), np.asarray(identity, dtype=d), d.type(identity)"""
     c = attr_chain(t)
-    return bool(c and c[-1] == "identity")
+    if c and c[-1] == "identity":
+        return True
+    if depth > 4 or t.k != "call":
+        return False
+    if t.a[0].k == "attr" and t.a[0].a[1] in ("astype", "view", "item") and _is_identity(t.a[0].a[0], depth + 1):
+        return True
+    if (np_call(t, {"array", "asarray", "asanyarray"}) or (t.a[0].k == "attr" and t.a[0].a[1] == "type")) and t.a[1] and _is_identity(t.a[1][0], depth + 1):
+        return True
+    return False
 
 
 def reduce_hazards(ctx, tk):
